@@ -1,23 +1,252 @@
-import MidnightZK.Proofs.C04.Basic
+import MidnightZK.Proofs.C04.LinComb
 /-! Soundness lemmas of the `NativeChip` emitters, compositional: from `Holds` of the state after
-the operation conclude `Holds` of the state before, the relation the operation enforces between
-its input and output cells, and the constant-cache invariant. -/
+the operation conclude the relation the operation enforces between its input and output cells
+and the constant-cache invariant of the new state; `_ext` lemmas say that the operation only
+adds constraints. -/
 namespace MidnightZK.C04
 open Lean.Grind
 attribute [local instance] Semiring.natCast
 set_option linter.unusedSectionVars false
+set_option linter.unusedSimpArgs false
+set_option linter.unusedVariables false
 
 variable {F : Type} [Field F] [DecidableEq F]
 variable {R : Nat → F → Prop}
 
+/-- Unfold one-region emitters down to equations between cell values. -/
+macro "cs_unfold" " at " h:ident : tactic =>
+  `(tactic| simp only [addRegion_fst_regions, addRegion_snd, holds_copy, holds_addRegion,
+    cacheOK_copy, cacheOK_addRegion, rowsHold, Row.gatesHold, Row.lookupsHold, Row.fixedHold,
+    mkArith, advc] at $h:ident ⊢)
+
+theorem field_bit {b : F} (h : b * b = b) : b = 0 ∨ b = 1 := by
+  by_cases hb : b = 0
+  · exact Or.inl hb
+  · right
+    have := Field.mul_inv_cancel hb
+    grind
+
+/-! ### primitives -/
+
+theorem assign_ext (s : St F) : s.Ext (assign s).2 := ext_addRegion s _
+
+theorem assignBit_ext (s : St F) : s.Ext (assignBit s).2 :=
+  (ext_addRegion s _).trans (ext_copy _ _ _)
+
+theorem assignBit_sound (s : St F) (asg : Cell → F) (hc : s.CacheOK asg)
+    (h : (assignBit s).2.Holds R asg) :
+    (assignBit s).2.CacheOK asg ∧ (asg (assignBit s).1 = 0 ∨ asg (assignBit s).1 = 1) := by
+  simp only [assignBit] at h ⊢; cs_unfold at h
+  refine ⟨hc, ?_⟩
+  obtain ⟨hcp, ⟨hg, _⟩, _⟩ := h
+  rw [← hcp] at hg
+  apply field_bit; grind
+
+theorem assertEqual_ext (s : St F) (x y : Cell) : s.Ext (assertEqual s x y) :=
+  (ext_addRegion s _).trans (ext_copy _ _ _)
+
+theorem assertEqual_sound (s : St F) (x y : Cell) (asg : Cell → F) (hc : s.CacheOK asg)
+    (h : (assertEqual s x y).Holds R asg) :
+    (assertEqual s x y).CacheOK asg ∧ asg x = asg y := by
+  simp only [assertEqual] at h ⊢; cs_unfold at h
+  exact ⟨hc, h.1⟩
+
+theorem assertNotEqual_ext (s : St F) (x y : Cell) : s.Ext (assertNotEqual s x y) :=
+  (ext_addRegion s _).trans ((ext_copy _ _ _).trans (ext_copy _ _ _))
+
+theorem assertNotEqual_sound (s : St F) (x y : Cell) (asg : Cell → F) (hc : s.CacheOK asg)
+    (h : (assertNotEqual s x y).Holds R asg) :
+    (assertNotEqual s x y).CacheOK asg ∧ asg x ≠ asg y := by
+  simp only [assertNotEqual] at h ⊢; cs_unfold at h
+  refine ⟨hc, ?_⟩
+  intro he; grind
+
+theorem assertEqualToFixed_ext (s : St F) (x : Cell) (c : F) : s.Ext (assertEqualToFixed s x c) :=
+  (assignFixed_ext s c).trans (assertEqual_ext _ _ _)
+
+theorem assertEqualToFixed_sound (s : St F) (x : Cell) (c : F) (asg : Cell → F)
+    (hc : s.CacheOK asg) (h : (assertEqualToFixed s x c).Holds R asg) :
+    (assertEqualToFixed s x c).CacheOK asg ∧ asg x = c := by
+  simp only [assertEqualToFixed] at h ⊢
+  have h1 := (assertEqual_ext (assignFixed s c).2 x (assignFixed s c).1).holds asg h
+  obtain ⟨_, c1, r1⟩ := assignFixed_sound s c asg hc h1
+  obtain ⟨c2, r2⟩ := assertEqual_sound _ _ _ asg c1 h
+  exact ⟨c2, by rw [r2, r1]⟩
+
+theorem assignWithShiftedInverse_ext (s : St F) (c : F) :
+    s.Ext (assignWithShiftedInverse s c).2 := ext_addRegion s _
+
+theorem assignWithShiftedInverse_sound (s : St F) (shift : F) (asg : Cell → F)
+    (hc : s.CacheOK asg) (h : (assignWithShiftedInverse s shift).2.Holds R asg) :
+    (assignWithShiftedInverse s shift).2.CacheOK asg ∧
+    (asg (assignWithShiftedInverse s shift).1.1 - shift) * asg (assignWithShiftedInverse s shift).1.2 = 1 := by
+  simp only [assignWithShiftedInverse] at h ⊢; cs_unfold at h
+  refine ⟨hc, ?_⟩; grind
+
+theorem assertNotEqualToFixed_ext (s : St F) (x : Cell) (c : F) :
+    s.Ext (assertNotEqualToFixed s x c) :=
+  (assignWithShiftedInverse_ext s c).trans (assertEqual_ext _ _ _)
+
+theorem assertNotEqualToFixed_sound (s : St F) (x : Cell) (c : F) (asg : Cell → F)
+    (hc : s.CacheOK asg) (h : (assertNotEqualToFixed s x c).Holds R asg) :
+    (assertNotEqualToFixed s x c).CacheOK asg ∧ asg x ≠ c := by
+  simp only [assertNotEqualToFixed] at h ⊢
+  have h1 := (assertEqual_ext (assignWithShiftedInverse s c).2 x _).holds asg h
+  obtain ⟨c1, r1⟩ := assignWithShiftedInverse_sound s c asg hc h1
+  obtain ⟨c2, r2⟩ := assertEqual_sound _ _ _ asg c1 h
+  refine ⟨c2, ?_⟩
+  intro he; rw [← r2, he] at r1; grind
+
+theorem addAndDoubleMul_ext (s : St F) (a : F) (x : Cell) (b : F) (y : Cell) (c : F) (z : Cell)
+    (k m1 m2 : F) : s.Ext (addAndDoubleMul s a x b y c z k m1 m2).2 :=
+  (ext_addRegion s _).trans ((ext_copy _ _ _).trans ((ext_copy _ _ _).trans (ext_copy _ _ _)))
+
 theorem addAndDoubleMul_sound (s : St F) (a : F) (x : Cell) (b : F) (y : Cell) (c : F) (z : Cell)
     (k m1 m2 : F) (asg : Cell → F) (hc : s.CacheOK asg)
     (h : (addAndDoubleMul s a x b y c z k m1 m2).2.Holds R asg) :
-    s.Holds R asg ∧ (addAndDoubleMul s a x b y c z k m1 m2).2.CacheOK asg ∧
+    (addAndDoubleMul s a x b y c z k m1 m2).2.CacheOK asg ∧
     asg (addAndDoubleMul s a x b y c z k m1 m2).1
       = a * asg x + b * asg y + c * asg z + k + m1 * asg x * asg y + m2 * asg x * asg z := by
-  simp only [addAndDoubleMul, addRegion_fst_regions, addRegion_snd, holds_copy, holds_addRegion,
-    cacheOK_copy, cacheOK_addRegion, rowsHold, Row.gatesHold, Row.lookupsHold, Row.fixedHold,
-    mkArith, advc] at h ⊢
-  refine ⟨h.2.2.2.2, hc, ?_⟩
+  simp only [addAndDoubleMul] at h ⊢; cs_unfold at h
+  refine ⟨hc, ?_⟩
   grind
+
+theorem addAndMul_ext (s : St F) (a : F) (x : Cell) (b : F) (y : Cell) (c : F) (z : Cell)
+    (k m : F) : s.Ext (addAndMul s a x b y c z k m).2 := addAndDoubleMul_ext ..
+
+theorem addAndMul_sound (s : St F) (a : F) (x : Cell) (b : F) (y : Cell) (c : F) (z : Cell)
+    (k m : F) (asg : Cell → F) (hc : s.CacheOK asg)
+    (h : (addAndMul s a x b y c z k m).2.Holds R asg) :
+    (addAndMul s a x b y c z k m).2.CacheOK asg ∧
+    asg (addAndMul s a x b y c z k m).1 = a * asg x + b * asg y + c * asg z + k + m * asg x * asg y := by
+  obtain ⟨c1, r1⟩ := addAndDoubleMul_sound s a x b y c z k m 0 asg hc h
+  exact ⟨c1, by simp only [addAndMul]; rw [r1]; grind⟩
+
+theorem linearCombination_ext (s : St F) (terms : List (F × Cell)) (const : F) :
+    s.Ext (linearCombination s terms const).2 := by
+  unfold linearCombination
+  simp only
+  split
+  · exact assignFixed_ext s const
+  · exact (ext_addRegion s _).trans (ext_copies' _ _)
+
+/-! ### arithmetic -/
+
+theorem add_sound (s : St F) (x y : Cell) (asg : Cell → F) (hc : s.CacheOK asg)
+    (h : (add s x y).2.Holds R asg) :
+    (add s x y).2.CacheOK asg ∧ asg (add s x y).1 = asg x + asg y := by
+  obtain ⟨_, c1, r1⟩ := linearCombination_sound s [(1, x), (1, y)] 0 asg hc h
+  exact ⟨c1, by simp only [add]; rw [r1]; simp [termSum]; grind⟩
+
+theorem sub_sound (s : St F) (x y : Cell) (asg : Cell → F) (hc : s.CacheOK asg)
+    (h : (sub s x y).2.Holds R asg) :
+    (sub s x y).2.CacheOK asg ∧ asg (sub s x y).1 = asg x - asg y := by
+  obtain ⟨_, c1, r1⟩ := linearCombination_sound s [(1, x), (-1, y)] 0 asg hc h
+  exact ⟨c1, by simp only [sub]; rw [r1]; simp [termSum]; grind⟩
+
+theorem neg_sound (s : St F) (x : Cell) (asg : Cell → F) (hc : s.CacheOK asg)
+    (h : (neg s x).2.Holds R asg) :
+    (neg s x).2.CacheOK asg ∧ asg (neg s x).1 = - asg x := by
+  obtain ⟨_, c1, r1⟩ := linearCombination_sound s [(-1, x)] 0 asg hc h
+  exact ⟨c1, by simp only [neg]; rw [r1]; simp [termSum]; grind⟩
+
+theorem addConstant_ext (s : St F) (x : Cell) (c : F) : s.Ext (addConstant s x c).2 := by
+  unfold addConstant; split
+  · exact St.Ext.refl s
+  · exact linearCombination_ext ..
+
+theorem addConstant_sound (s : St F) (x : Cell) (c : F) (asg : Cell → F) (hc : s.CacheOK asg)
+    (h : (addConstant s x c).2.Holds R asg) :
+    (addConstant s x c).2.CacheOK asg ∧ asg (addConstant s x c).1 = asg x + c := by
+  unfold addConstant at h ⊢
+  split
+  · next h0 => simp only [h0, if_true] at h ⊢; exact ⟨hc, by grind⟩
+  · next h0 =>
+    simp only [h0, if_false] at h ⊢
+    obtain ⟨_, c1, r1⟩ := linearCombination_sound s [(1, x)] c asg hc h
+    exact ⟨c1, by rw [r1]; simp [termSum]; grind⟩
+
+theorem mulByConstant_sound (s : St F) (x : Cell) (c : F) (asg : Cell → F) (hc : s.CacheOK asg)
+    (h : (mulByConstant s x c).2.Holds R asg) :
+    (mulByConstant s x c).2.CacheOK asg ∧ asg (mulByConstant s x c).1 = c * asg x := by
+  unfold mulByConstant at h ⊢
+  by_cases h0 : c = 0
+  · simp only [h0, if_true] at h ⊢
+    obtain ⟨_, c1, r1⟩ := assignFixed_sound s 0 asg hc h
+    exact ⟨c1, by rw [r1]; grind⟩
+  · by_cases h1 : c = 1
+    · subst h1
+      have h10 : ¬ ((1 : F) = 0) := fun e => Field.zero_ne_one e.symm
+      simp only [h10, if_true, if_false] at h ⊢
+      exact ⟨hc, by grind⟩
+    · simp only [h0, h1, if_false] at h ⊢
+      obtain ⟨_, c1, r1⟩ := linearCombination_sound s [(c, x)] 0 asg hc h
+      exact ⟨c1, by rw [r1]; simp [termSum]; grind⟩
+
+theorem mul_ext (s : St F) (x y : Cell) (k : Option F) : s.Ext (mul s x y k).2 := by
+  unfold mul
+  split
+  · exact assignFixed_ext s 0
+  · simp only
+    split
+    · exact assignFixed_ext s 1
+    · split
+      · exact assignFixed_ext s 1
+      · exact (assignFixed_ext s 1).trans (addAndMul_ext ..)
+
+/-- `mul`: the result is `k·x·y` (`k = 1` when absent), including the shortcuts through the
+cached constant `1` and the constant `0`. -/
+theorem mul_sound (s : St F) (x y : Cell) (k : Option F) (asg : Cell → F) (hc : s.CacheOK asg)
+    (h : (mul s x y k).2.Holds R asg) :
+    (mul s x y k).2.CacheOK asg ∧ asg (mul s x y k).1 = k.getD 1 * asg x * asg y := by
+  unfold mul at h ⊢
+  by_cases h0 : k = some 0
+  · simp only [h0, if_true] at h ⊢
+    obtain ⟨_, c1, r1⟩ := assignFixed_sound s 0 asg hc h
+    exact ⟨c1, by rw [r1]; simp; grind⟩
+  · simp only [h0, if_false] at h ⊢
+    by_cases h1 : k.getD 1 = 1 ∧ x = (assignFixed s 1).1
+    · simp only [h1, and_self, if_true] at h ⊢
+      obtain ⟨_, c1, r1⟩ := assignFixed_sound s 1 asg hc h
+      refine ⟨c1, ?_⟩
+      rw [r1]; grind
+    · simp only [h1, if_false] at h ⊢
+      by_cases h2 : k.getD 1 = 1 ∧ y = (assignFixed s 1).1
+      · simp only [h2, and_self, if_true] at h ⊢
+        obtain ⟨_, c1, r1⟩ := assignFixed_sound s 1 asg hc h
+        refine ⟨c1, ?_⟩
+        rw [r1]; grind
+      · simp only [h2, if_false] at h ⊢
+        have h1' := (addAndMul_ext (assignFixed s 1).2 0 x 0 y 0 x 0 (k.getD 1)).holds asg h
+        obtain ⟨_, c1, _⟩ := assignFixed_sound s 1 asg hc h1'
+        obtain ⟨c2, r2⟩ := addAndMul_sound _ 0 x 0 y 0 x 0 (k.getD 1) asg c1 h
+        exact ⟨c2, by rw [r2]; grind⟩
+
+theorem inv_ext (s : St F) (x : Cell) : s.Ext (inv s x).2 :=
+  (assignWithShiftedInverse_ext s 0).trans (assertEqual_ext _ _ _)
+
+/-- `inv`: `x · out = 1`; in particular the circuit is unsatisfiable for `x = 0`. -/
+theorem inv_sound (s : St F) (x : Cell) (asg : Cell → F) (hc : s.CacheOK asg)
+    (h : (inv s x).2.Holds R asg) :
+    (inv s x).2.CacheOK asg ∧ asg x * asg (inv s x).1 = 1 := by
+  simp only [inv] at h ⊢
+  have h1 := (assertEqual_ext (assignWithShiftedInverse s 0).2 x _).holds asg h
+  obtain ⟨c1, r1⟩ := assignWithShiftedInverse_sound s 0 asg hc h1
+  obtain ⟨c2, r2⟩ := assertEqual_sound _ _ _ asg c1 h
+  refine ⟨c2, ?_⟩
+  rw [r2]; grind
+
+theorem div_ext (s : St F) (x y : Cell) : s.Ext (div s x y).2 :=
+  (inv_ext s y).trans (mul_ext ..)
+
+/-- `div`: `y · out = x` with `y ≠ 0` enforced. -/
+theorem div_sound (s : St F) (x y : Cell) (asg : Cell → F) (hc : s.CacheOK asg)
+    (h : (div s x y).2.Holds R asg) :
+    (div s x y).2.CacheOK asg ∧ asg y * asg (div s x y).1 = asg x ∧ asg y ≠ 0 := by
+  simp only [div] at h ⊢
+  have h1 := (mul_ext (inv s y).2 x (inv s y).1 none).holds asg h
+  obtain ⟨c1, r1⟩ := inv_sound s y asg hc h1
+  obtain ⟨c2, r2⟩ := mul_sound _ x _ none asg c1 h
+  refine ⟨c2, ?_, ?_⟩
+  · rw [r2]; simp; grind
+  · intro h0; rw [h0] at r1; grind
